@@ -17,6 +17,7 @@ from __future__ import annotations
 
 import asyncio
 import collections
+import copy
 import itertools
 
 from vp.core import Ctx, Fail, SubCheck, Tally, exc_klass, lib_raised, make_machine, replay_ops_oracle
@@ -223,13 +224,25 @@ class Runner:
         self.opc = collections.Counter()
 
     # -- DFS support ---------------------------------------------------------------------------
+    def _copy_state(self, d):
+        """type-preserving deep copy of the handler's attributes (Counter / deque / defaultdict / nested containers stay what they
+        are); the harness's transport and the handler itself keep their identity, uncopyable values are shared"""
+        memo = {id(self.tr): self.tr, id(self.real): self.real}
+        out = {}
+        for k, v in d.items():
+            try:
+                out[k] = copy.deepcopy(v, memo)
+            except Exception:
+                out[k] = v
+        return out
+
     def snapshot(self):
-        return ({k: (dict(v) if isinstance(v, dict) else v) for k, v in self.real.__dict__.items()}, len(self.tr.sent), self.connected,
-                dict(self.registry), dict(self.st))
+        return (self._copy_state(self.real.__dict__), len(self.tr.sent), self.connected, dict(self.registry), dict(self.st))
 
     def restore(self, s):
+        state = self._copy_state(s[0])
         self.real.__dict__.clear()
-        self.real.__dict__.update({k: (dict(v) if isinstance(v, dict) else v) for k, v in s[0].items()})
+        self.real.__dict__.update(state)
         del self.tr.sent[s[1]:]
         self.connected = s[2]
         self.registry = dict(s[3])
@@ -323,12 +336,17 @@ class Runner:
                 raise Fail("connect_close_data_answered_by_exactly_one_ack", desc, want)
             if cls == "rrs_register" and rrs and kinds.count("rrs_answer") != 1:
                 raise Fail("registration_answered_by_one_success_answer", desc, want)
-            if sorted(kinds) != sorted(want):
+            # further datagrams that are neither acknowledgements, heartbeats nor registration answers (say, an application-level
+            # reply to another RRS opcode) are not constrained by the statement for a message without the ack bit: counted only
+            rest = [k for k in kinds if k != "other"]
+            if sorted(rest) != sorted(want):
                 raise Fail("nothing_else_is_sent", desc, want)
+            if len(rest) != len(kinds):
+                self.st["extra_datagram_tolerated"] = self.st.get("extra_datagram_tolerated", 0) + 1
             for item, kd in zip(emitted, kinds):
                 if kd == "ack":
                     self.check_ack(data, src, item, strict_form=True)
-                else:
+                elif kd == "rrs_answer":
                     self.check_answer(src, item, bytes.fromhex(op["radio"]))
         # state
         if cls == "connect":
@@ -377,7 +395,12 @@ class Runner:
             p = pdu.payload
             lib_rrs = (p.opcode.value, bytes([p.radio_ip.subnet & 0xFF]) + int(p.radio_ip.radio_id).to_bytes(3, "big"))
         if emitted and not framed:
-            raise Fail("nothing_is_sent_for_a_datagram_without_hstrp_header", desc, [])
+            # an acknowledgement / heartbeat / registration answer for something that is no HSTRP datagram contradicts the
+            # statement's "only in reaction to"; any other datagram (say, a reject notice) is the library's choice
+            if any(kd != "other" for kd in kinds):
+                raise Fail("nothing_is_sent_for_a_datagram_without_hstrp_header", desc, [])
+        if not framed:
+            t = 0
         if kinds.count("ack") and t & R.ACK:
             raise Fail("acknowledgement_is_never_answered", desc, "no ack for an ack-flagged datagram")
         if kinds.count("ack") > 1:
@@ -387,7 +410,9 @@ class Runner:
         if kinds.count("rrs_answer") > (1 if (lib_rrs and lib_rrs[0] == R.RRS_REQUEST and self.kind == "rrs") else 0):
             raise Fail("registration_answered_by_one_success_answer", desc, "an answer only for a parsed registration request")
         if "other" in kinds:
-            raise Fail("nothing_else_is_sent", desc, "ack / heartbeat / registration answer only")
+            if t & R.ACK:
+                raise Fail("acknowledgement_is_never_answered", desc, "nothing for an ack-flagged datagram")
+            self.st["extra_datagram_tolerated"] = self.st.get("extra_datagram_tolerated", 0) + 1
         for item, kd in zip(emitted, kinds):
             if kd == "ack":
                 self.check_ack(data, src, item, strict_form=False)
